@@ -15,6 +15,7 @@
 import AcnProofs.Lemmas.SortedGreedy
 import AcnProofs.Lemmas.SortedRR
 import AcnProofs.Lemmas.SortedPre
+import AcnProofs.Lemmas.SortedSim
 
 set_option linter.unusedSectionVars false
 
@@ -331,6 +332,76 @@ theorem schedule_feasible [HasCeilNat K] (feas : List K → Bool) (cfg : Config 
       simp only [hrr] at h hidx
       cases h
       exact rr_feasible feas _ infra _ st hidx hlen hrr
+
+/- FULL statement `sim_consequences`: in the shared simulator model (`Sim.run cfg sched`) with
+   `sched` = one of these algorithms reading its sessions / infrastructure off the `View`, for every
+   valid configuration and every period: `applyStage` raises no `InvalidRate`, the schedule written
+   to the pilot matrix is feasible for the network, and every EV has `delivered ≤ requested`.
+   Proved below (per period, on the shared `Sim` model, for ANY scheduler): the two steps that turn
+   C07's per-call guarantees into these consequences —
+     * pilots of the shape `pilot_accepted_*` / `zero_for_inactive_*` establish (`Accepts`) make the
+       whole `applyStage` free of `InvalidRate` (all stations, in order, incl. widening / storing);
+     * pilots within the occupants' remaining demand (`le_remaining_*`) keep `delivered ≤ requested`
+       and the battery invariant for every EV record through the whole `update_pilots` of the period
+       (via C03's `0 ≤ rate ≤ pilot`).
+   NOT proved: the glue — the adapter `View → (sessions, infrastructure)`, that column `iter` of the
+   pilot matrix after `schedStage` is the scheduler's answer (C04 `overlay_refines`), and the
+   induction over `Sim.run` (C01 `Inv`).  Those are validated by the simulation-level oracle of the
+   C07 check (no warning, no InvalidRateError, delivered ≤ requested on whole simulations). -/
+theorem sim_no_invalid_rate_partial [HasExp K] (cfg : Sim.Cfg K) (htol : TolOk cfg) (s : Sim.State K)
+    (h : ∀ k st, cfg.stations[k]? = some st →
+      Accepts st.kind ((Sim.widen s).pilots.get k (Sim.widen s).core.iter)) :
+    (Sim.applyStage cfg s).2 ≠ some .invalidRate :=
+  applyStage_not_invalidRate cfg htol s h
+
+/-- the pilots C07 proves have the shape `Accepts` asks for -/
+theorem accepts_of_pilot_accepted (r mx : K) (rates : List K) :
+    (0 ≤ r → r ≤ mx → Accepts (.cont 0 (some mx)) r) ∧
+    ((0 : K) ∈ rates → (r = 0 ∨ r ∈ rates) → Accepts (.finite rates) r) ∧
+    (∀ (k : Evse.Kind K), (∀ db m, k ≠ .deadband db m) → (∀ l, k = .finite l → (0 : K) ∈ l) →
+      (∀ mn m, k = .cont mn m → mn ≤ 0 ∧ ∀ x, m = some x → 0 ≤ x) → Accepts k 0) := by
+  refine ⟨fun h0 h1 => ⟨le_refl _, h0, h1⟩, ?_, ?_⟩
+  · intro h0 h
+    rcases h with rfl | h
+    · exact h0
+    · exact h
+  · intro k hd hf hc
+    cases k with
+    | cont mn m =>
+      obtain ⟨h1, h2⟩ := hc mn m rfl
+      refine ⟨h1, le_refl _, ?_⟩
+      cases m with
+      | none => trivial
+      | some x => exact h2 x rfl
+    | deadband db m => exact absurd rfl (hd db m)
+    | finite l => exact hf l rfl
+
+/-- one `EV.charge` with a non-negative pilot within the remaining demand (amp-periods) keeps
+    `delivered ≤ requested` and the battery invariant (ℝ; uses C03 `0 ≤ rate ≤ pilot`) -/
+theorem ev_charge_le_requested {e e' : Evse.Ev ℝ} (hb : BattAlg.Inv e.batt)
+    {pilot V T ν : ℝ} (hp : 0 ≤ pilot) (hV : 0 < V) (hT : 0 < T)
+    (hrem : pilot ≤ (e.requested - e.delivered) * 1000 / V * 60 / T)
+    (h : e.charge pilot V T ν = .ok e') :
+    e'.delivered ≤ e.requested ∧ e'.requested = e.requested ∧ e.delivered ≤ e'.delivered ∧
+    BattAlg.Inv e'.batt :=
+  charge_le_requested hb hp hV hT hrem h
+
+/-- a whole `network.update_pilots` of one period in the shared simulator model (all stations in
+    order, stopping at a raise as the code does) keeps, for EVERY EV record, `delivered ≤ requested`
+    and the battery invariant — provided each occupied station's pilot of this period is
+    non-negative and at most its occupant's remaining demand in amp-periods (what `le_remaining_*`
+    and `pilot_accepted_*` give for a schedule computed in this period) and the occupants are
+    distinct sessions (C01). -/
+theorem sim_delivered_le_requested_partial (cfg : Sim.Cfg ℝ) (hT : 0 < cfg.period) (s : Sim.State ℝ)
+    (hV : ∀ st ∈ cfg.stations, 0 < st.voltage)
+    (hinv : ∀ e ∈ s.evs, LedgerOk e)
+    (hdist : cfg.stations.Pairwise (fun a b => ∀ x y, s.core.occ a.id = some x →
+      s.core.occ b.id = some y → x.id ≠ y.id))
+    (hp : ∀ k st, cfg.stations[k]? = some st → ∀ e, Sim.occupantEv s st.id = some e →
+      0 ≤ s.pilots.get k s.core.iter ∧ s.pilots.get k s.core.iter ≤ rapEv cfg st e) :
+    ∀ e ∈ (Sim.updatePilots cfg s).1.evs, LedgerOk e :=
+  updatePilotsFrom_ledger cfg hT cfg.stations 0 s hV hinv hdist
+    (by intro k st hk e he; rw [Nat.zero_add]; exact hp k st hk e he)
 
 /-! ### non-vacuity: concrete instances over ℚ on which the hypotheses hold and the algorithms run -/
 
